@@ -2,6 +2,7 @@ SPECIFICATION MCSpec
 CONSTANTS
   NWriters = 3
   Mode = "dist"
+  FirstUse = FALSE
   Recheck = TRUE
   TrackSched = TRUE
   CellMap = "separate"
